@@ -234,6 +234,7 @@ func init() {
 		defer s.Close(dir, "determinism")
 		monC09Parallelism(s)
 		monC09ReadHistory(s)
+		monC09NodeConfig(s)
 		for h := 0; h < n; h++ {
 			accts := rtAccts()
 			a, err := NewChain(dbm.NewMemDB(), tmpHome(), accts, 100000, nil)
